@@ -9,6 +9,7 @@ nothing is evaluated:
                         arm with that arm's f (closure dispatch is the if/elif chain it abbreviates)
   inline_local_defs     a nested `def h(p): return e` / `h = lambda p: e` (or a nested def with straight-line statements and one
                         trailing return) used in the same function -> its body at the call site
+  index_loops_to_enumerate  `for i in range(len(X)): x = X[i] ...` -> `for i, x in enumerate(X): ...` (X neither re-bound nor mutated in the body)
   inline_stmt_calls     a call that is a whole statement (`h(a)`, `x = h(a)`, `x[i] = h(a)`, `x += h(a)`, `return h(a)`) to a helper
                         with straight-line control flow at its top level and at most one trailing return -> the helper's
                         statements with parameters renamed to the arguments and locals made unique
@@ -895,11 +896,77 @@ def specialise_dispatch(func):
     return func
 
 
+# ------------------------------------------------------------------------------------------- index loops -> enumerate
+
+class _IndexLoops(ast.NodeTransformer):
+    """`for i in range(len(X)): .. X[i] ..`  ->  `for i, x in enumerate(X): .. x ..`  when X is a plain name / attribute chain that the
+    body neither re-binds nor mutates and `i` is not re-bound: the loop visits the same elements in the same order.  A leading
+    `x = X[i]` supplies the element's name."""
+
+    def visit_For(self, n):
+        self.generic_visit(n)
+        it = n.iter
+        if n.orelse or not isinstance(n.target, ast.Name) or not (isinstance(it, ast.Call) and isinstance(it.func, ast.Name) and it.func.id == "range"
+                                                                  and len(it.args) == 1 and not it.keywords):
+            return n
+        ln = it.args[0]
+        if not (isinstance(ln, ast.Call) and isinstance(ln.func, ast.Name) and ln.func.id == "len" and len(ln.args) == 1 and not ln.keywords):
+            return n
+        X = ln.args[0]
+        b = X
+        while isinstance(b, ast.Attribute):
+            b = b.value
+        if not isinstance(b, ast.Name) or not _pure(X):
+            return n
+        i = n.target.id
+        xs = ast.unparse(X)
+        stored = _stored(n.body)
+        if i in stored or b.id in stored:
+            return n
+
+        def is_elem(e):
+            return isinstance(e, ast.Subscript) and isinstance(e.ctx, ast.Load) and ast.unparse(e.value) == xs \
+                and isinstance(e.slice, ast.Name) and e.slice.id == i
+        body = list(n.body)
+        first = body[0] if body else None
+        if isinstance(first, ast.Assign) and len(first.targets) == 1 and isinstance(first.targets[0], ast.Name) and is_elem(first.value) \
+                and first.targets[0].id not in _stored(body[1:]) and first.targets[0].id != i:
+            name = first.targets[0].id
+            body = body[1:] or [ast.copy_location(ast.Pass(), first)]
+        elif any(is_elem(e) for st in body for e in ast.walk(st)):
+            name = f"_elem{next(_counter)}"
+        else:
+            return n
+
+        class R(ast.NodeTransformer):
+            def visit_Subscript(self, e):
+                if is_elem(e):
+                    return ast.copy_location(ast.Name(id=name, ctx=ast.Load()), e)
+                return self.generic_visit(e)
+        n.body = [R().visit(st) for st in body]
+        n.target = ast.copy_location(ast.Tuple(elts=[ast.Name(id=i, ctx=ast.Store()), ast.Name(id=name, ctx=ast.Store())], ctx=ast.Store()), n.target)
+        n.iter = ast.copy_location(ast.Call(func=ast.Name(id="enumerate", ctx=ast.Load()), args=[X], keywords=[]), it)
+        ast.fix_missing_locations(n)
+        return n
+
+    def visit_FunctionDef(self, n):
+        return n            # nested functions are normalised on their own
+
+    visit_Lambda = visit_AsyncFunctionDef = visit_ClassDef = lambda self, n: n
+
+
+def index_loops_to_enumerate(func):
+    tr = _IndexLoops()
+    func.body = [tr.visit(st) for st in func.body]
+    return func
+
+
 def normalize_function(func, tables: dict | None = None):
     """the local normalisations (no knowledge of other functions needed); `tables`: module-level literal tables (module_tables)"""
     try:
         specialise_dispatch(func)
         inline_local_defs(func)
+        index_loops_to_enumerate(func)
         before = len(list(ast.walk(func)))
         unroll_static_loops(func, tables)
         const_getattr(func)          # after unrolling: the name may come from a row of the unrolled table
